@@ -55,6 +55,26 @@ CHECKS = {
    text="Fault enumeration bound to a model: MC explores every crash point x log length x batch position with scaled constants; on the real store child processes are killed inside the callback, after callback return, after the offset write and after the truncation check at offsets around 0, batch edges, segment edges (499-501), truncation edges (1999-2001, 2999-3001) and random ones, over 2-3 crash/restart rounds with appends before and during consumption; the trace must be a behaviour of MsgLog's consumer (state-file value at each start, in-order gap-free hand-over from the stored offset, intact payloads) and end with every entry handed over.",
    note="Trusts TLC, the Json module, the three verif hooks in Consume. SIGKILL, not power loss. 'Replays at most the message being processed' read as inclusive resume from the stored offset (DESIGN.md 4.6).",
    design="5 C15, 4.6"),
+ "C02": dict(
+   technique="TLA+ specs MsgLog/Inbound model-checked with TLC (TruncSafe with Margin-0 negative control); TLC-generated publish/subscribe scripts and seeded long runs executed on a real in-process node; the recorded trace validated by TLC against the broker specification BrokerTrace incl. the quiescence obligation (trace validation)",
+   text="Every TLC-generated script of 3 (thorough 4) steps in which clients both publish (QoS 0/1/2, delayed PUBREL) and subscribe on a fresh node (first message ever stored included); seeded long runs of bursts with payloads up to 70 KB crossing the 500-entry segment roll and the truncations at 2000/3000 with a gated subscriber that makes the writer lag by a full queue at the truncation points, on empty and pre-filled logs. At quiescence every acknowledged publish must have reached every session that stayed connected with a matching subscription, topic and payload (length+CRC) intact.",
+   note="Trusts TLC, the Json module, the harness seams and completion hooks. Long runs are seeded samples; the scripts are exhaustive within their bounds.",
+   design="5 C02, 4.6, 4.5"),
+ "C03": dict(
+   technique="TLA+ spec Delivery (on IdPool and AckQueue) model-checked with TLC; TLC-generated client response scripts executed on a real node with driver-issued sweeps; every packet written, in-flight callback and pool content validated by TLC against BrokerTrace (trace validation)",
+   text="Exhaustive within bounds: every response script of depth 4 (thorough 5) for a QoS 1 and a QoS 2 message on one subscriber - acknowledge, wrong packet type, foreign identifier, silence across deadlines, close, DISCONNECT - plus simulated scripts for two subscribers and three messages; retransmissions must carry the same identifier and happen only after an expiry, PUBREL follows PUBREC, nothing is sent after completion or session end, and the identifiers held by the pool at quiescence equal those of the live exchanges.",
+   note="Trusts TLC, the Json module, the harness seams; sweeps use synthetic 'now' (real time + 4.5 s / 9 s), no real 3 s waits.",
+   design="5 C03, 4.4"),
+ "C05": dict(
+   technique="TLA+ spec Inbound model-checked with TLC; TLC-generated publisher scripts with injected log/RPC failures executed on two real nodes; every append and acknowledgement validated by TLC against BrokerTrace (trace validation)",
+   text="Exhaustive within bounds: every publisher script of depth 3 (thorough 4) over PUBLISH QoS 0/1/2 x ids {1,2}, PUBREL (matching, repeated, unknown), handshake time-out, with failures of either node's log append or of the RPC towards it toggled between steps, plus simulated longer scripts; PUBACK/PUBCOMP only after the message is in the log of every hosting node, never after a failed write, QoS 2 forwarded exactly once per handshake and never on PUBLISH alone.",
+   note="Trusts TLC, the Json module, the harness seams (message-log and transport wrappers inject the failures).",
+   design="5 C05, 4.5"),
+ "C14": dict(
+   technique="TLA+ spec Inbound model-checked with TLC; TLC-generated distribution scripts executed on three real nodes joined by the harness network; every log append, delivery and acknowledgement validated by TLC against BrokerTrace (trace validation)",
+   text="Publishers on two nodes, topics hosted on {1,2}, {2}, {1}, {} of three nodes, QoS 0/1/2, every combination of failing destinations (log / RPC) toggled between steps: each message must be appended exactly once to the log of each hosting node known to the publisher and to no other, each node writes it only to its local matching sessions, a failing destination does not prevent the others (checked at quiescence) and withholds the acknowledgement.",
+   note="Trusts TLC, the Json module, the harness seams; gossip is fully delivered between steps.",
+   design="5 C14, 4.5"),
 }
 
 def main():
